@@ -721,7 +721,7 @@ impl XmlAttribute {
     pub fn empty(name: &str, context: &Context) -> error::Result<Rc<XmlItem>> {
         let xml = format!("{}=''", name);
         let (rest, tree) = xml_parser::attribute(xml.as_str())?;
-        if rest.is_empty() {
+        if rest.is_empty() && !has_white_space(name) {
             XmlAttribute::node(&tree, None, context)
         } else {
             Err(error::Error::InvalidData(name.to_string()))
@@ -2364,7 +2364,7 @@ impl XmlElement {
     pub fn empty(name: &str, context: &Context) -> error::Result<Rc<XmlItem>> {
         let xml = format!("<{} />", name);
         let (rest, tree) = xml_parser::element(xml.as_str())?;
-        if rest.is_empty() {
+        if rest.is_empty() && tree.attributes.is_empty() && !has_white_space(name) {
             XmlElement::node(&tree, None, context)
         } else {
             Err(error::Error::InvalidData(name.to_string()))
@@ -3480,7 +3480,7 @@ impl XmlProcessingInstruction {
     pub fn empty(target: &str, context: &Context) -> error::Result<Rc<XmlItem>> {
         let xml = format!("<?{}?>", target);
         let (rest, tree) = xml_parser::pi(xml.as_str())?;
-        if rest.is_empty() {
+        if rest.is_empty() && !has_white_space(target) {
             Ok(XmlProcessingInstruction::node(&tree, None, context))
         } else {
             Err(error::Error::InvalidData(target.to_string()))
@@ -4351,6 +4351,12 @@ fn equal_qname(a: xml_nom::model::QName, b: xml_nom::model::QName) -> bool {
             xml_nom::model::QName::Unprefixed(b) => a == b,
         },
     }
+}
+
+/// A name handed to a factory is embedded in a tag and parsed; white space would let it
+/// smuggle in more than the name (`a b='c'` as an element name, `a b` as a PI target).
+fn has_white_space(name: &str) -> bool {
+    name.contains([' ', '\t', '\r', '\n'])
 }
 
 fn escape(value: &str) -> String {
